@@ -48,7 +48,7 @@ func c02r1(c *Ctx) {
 						continue
 					}
 					x, y := e.bigRef(a[1], call), e.bigRef(a[2], call)
-					want1 := leAtom("cmp(" + x + "," + y + ")").String()            // cmp(x,y) >= 0
+					want1 := leAtom("cmp(" + x + "," + y + ")").String()           // cmp(x,y) >= 0
 					want2 := leAtom("cmp(" + y + "," + x + ")").scale(-1).String() // cmp(y,x) <= 0
 					construct := "Sub(" + e.Term(a[0]) + ", " + e.Term(a[1]) + ", " + e.Term(a[2]) + ")"
 					pred := func(f Fact) bool { return f.Lin && (f.LE.String() == want1 || f.LE.String() == want2) }
